@@ -436,7 +436,7 @@ partial def subNotOk : STree → Bool
   | .node _ => false
   | .sub _ _ _ ok ch => !ok || ch.any subNotOk
   | .guard _ ch => ch.any subNotOk
-  | .subR _ _ _ _ ch => ch.any subNotOk
+  | .subR _ _ _ _ _ ch => ch.any subNotOk
 end
 
 def staticReply (P : Program) (obs : Option Obs) : String :=
